@@ -124,7 +124,7 @@ Theorem C06_bye_is_final : forall q h c cn sid,
 Proof. exact bye_is_final. Qed.
 (* The same after the tick that ends the expiry window of a session whose connection was cut. *)
 Theorem C06_expiry_is_final : forall q h sid secs,
-  Good h -> In sid (h_expired h) -> 30 < secs ->
+  Good h -> In sid (h_expired h) -> hub_expire_s < secs ->
   forall ops', let h2 := runx q (fst (stepx q h (OTick secs))) ops' in
     get_sess h2 sid = None /\ unreferenced h2 sid /\
     forall c' cn', aget (h_conns h2) c' = Some cn' -> c_sess cn' = None ->
